@@ -624,3 +624,39 @@ func varintSurgery(cr *rng, b []byte) []byte {
 	out = append(out, enc...)
 	return append(out, b[f.at+f.n:]...)
 }
+
+// varintFields: offsets of the varint fields of a serialized blob (total, tape size, strings size, [block size], message
+// size, [block size], tags size, [block size], values size, [block size]), as far as the framing can be followed
+func varintFields(b []byte) []int {
+	var out []int
+	p := 1
+	rd := func() (uint64, bool) {
+		if p >= len(b) {
+			return 0, false
+		}
+		v, n := binary.Uvarint(b[p:])
+		if n <= 0 {
+			return 0, false
+		}
+		out = append(out, p)
+		p += n
+		return v, true
+	}
+	if _, ok := rd(); !ok {
+		return out
+	}
+	if _, ok := rd(); !ok {
+		return out
+	}
+	for k := 0; k < 4; k++ {
+		if _, ok := rd(); !ok {
+			break
+		}
+		sz, ok := rd()
+		if !ok || sz > uint64(len(b)-p) {
+			break
+		}
+		p += int(sz)
+	}
+	return out
+}
